@@ -23,6 +23,9 @@ from .common import (EventRule, cli_entry_store, ret_is_err, ret_is_ok, lib_crat
 from . import C14 as base
 
 LEVEL = "other"
+IMPORTS = [
+    ("C06", ("C06.sync",), "`leaves that line's content and cursor intact and redisplayed below the output` is the terminal/editor synchronisation of Cli::write"),
+]
 LF = 10
 
 
